@@ -21,6 +21,7 @@ def run_history(chk, uni, drv, rng, stats):
     focus = sel.split(">")[-1].strip()
     fi = int(sel[1])
     probe = ptera.Probe(sel, env=uni.mod.__dict__)
+    api = rng.random() < 0.5        # the explicit activate() / deactivate() of global probes, or the with protocol
     spec = uni.spec([sel])
     stages = []      # dict(kind, out, delivered(expected), attached_at)
     hist = []
@@ -50,7 +51,10 @@ def run_history(chk, uni, drv, rng, stats):
             hist.append({"op": "activate"})
             model_ops.append({"op": "activate", "p": 0})
             try:
-                probe.__enter__()
+                if api:
+                    probe.activate()
+                else:
+                    probe.__enter__()
                 ok = True
             except Exception as e:
                 ok = False
@@ -63,12 +67,14 @@ def run_history(chk, uni, drv, rng, stats):
                 active = True
             activated = True if ok or activated else activated
         elif r < 0.35 and active:
-            exc = rng.random() < 0.4
-            hist.append({"op": "deactivate", "exc": exc})
+            exc = rng.random() < 0.4 and not api
+            hist.append({"op": "deactivate", "exc": exc, "api": api})
             model_ops.append({"op": "deactivate", "p": 0})
             if exc:
                 e = uni.mod.Oops("x")
                 probe.__exit__(type(e), e, None)
+            elif api:
+                probe.deactivate()
             else:
                 probe.__exit__(None, None, None)
             active = False
